@@ -35,7 +35,7 @@ pub struct Cfg {
 }
 
 const SIZES: &[(usize, usize)] = &[(16, 8), (8, 8), (16, 16), (17, 9), (33, 8), (32, 16), (1, 1), (8, 24), (264, 16)];
-const N_PATTERNS: u32 = 9 + 63;
+const N_PATTERNS: u32 = 9 + 63 + 2;
 
 pub fn cfg_from(t: &mut Tape) -> Cfg {
     Cfg {
@@ -118,6 +118,24 @@ pub fn spec_of(c: &Cfg, seed: u64) -> JpegSpec {
                     // short blocks that leave room for explicit ZRLs in front of the EOB (see extra_zrl below)
                     blk[1] = 3;
                     blk[2 + (b % 3)] = -1;
+                }
+                72 => {
+                    // dense: every coefficient non-zero with magnitude >= 2 (refinement scans then carry correction
+                    // bits only, no zero runs, in the tail of every band)
+                    for k in 1..64 {
+                        let m = 2 + ((k + b + comp) % 5) as i32;
+                        blk[k] = if (k + b) % 2 == 0 { m } else { -m };
+                    }
+                }
+                73 => {
+                    // dense head, then magnitudes that become non-zero only in the last refinement (+-1), then dense again
+                    for k in 1..64 {
+                        blk[k] = match k % 7 {
+                            0 => 1,
+                            3 => -1,
+                            _ => if k % 2 == 0 { 6 } else { -5 },
+                        };
+                    }
                 }
                 p => {
                     // a single AC coefficient at zigzag position p - 8 (1..=63)
@@ -339,12 +357,14 @@ fn status_str(s: JpegReconstructionStatus) -> &'static str {
 }
 
 /// Feeds the container cut at `cuts`; returns (statuses seen while feeding, final status, reconstruction).
-fn drive(file: &[u8], cuts: &[usize]) -> Result<(Vec<&'static str>, &'static str, Result<Vec<u8>, String>), String> {
+#[allow(clippy::type_complexity)]
+fn drive(file: &[u8], cuts: &[usize]) -> Result<(Vec<(usize, Vec<u8>)>, &'static str, Result<Vec<u8>, String>), String> {
     let r = guard(|| -> Result<_, String> {
         let mut uninit = Some(JxlImage::builder().pool(JxlThreadPool::none()).build_uninit());
         let mut image: Option<JxlImage> = None;
         let mut pending: Vec<u8> = vec![];
         let mut seen = vec![];
+        let mut early_ok: Vec<(usize, Vec<u8>)> = vec![];
         let mut bounds = vec![0usize];
         bounds.extend_from_slice(cuts);
         bounds.push(file.len());
@@ -366,10 +386,13 @@ fn drive(file: &[u8], cuts: &[usize]) -> Result<(Vec<&'static str>, &'static str
                 let st = img.jpeg_reconstruction_status();
                 seen.push(status_str(st));
                 if st == JpegReconstructionStatus::Available && w[1] < file.len() {
-                    // 'available' must mean reconstruction can be attempted: it may fail for lack of frame
-                    // data, but it must not panic (guarded) — the attempt itself is the check
+                    // 'available' must mean reconstruction can be attempted: it may fail for lack of data, it must
+                    // not panic (guarded), and if it claims success before the file is complete the bytes must
+                    // already be the right ones
                     let mut sink = vec![];
-                    let _ = img.reconstruct_jpeg(&mut sink);
+                    if img.reconstruct_jpeg(&mut sink).is_ok() {
+                        early_ok.push((w[1], sink));
+                    }
                 }
             }
         }
@@ -378,7 +401,8 @@ fn drive(file: &[u8], cuts: &[usize]) -> Result<(Vec<&'static str>, &'static str
         let st = status_str(img.jpeg_reconstruction_status());
         let mut out = vec![];
         let rec = img.reconstruct_jpeg(&mut out).map(|_| out).map_err(|e| format!("{e}"));
-        Ok((seen, st, rec))
+        let _ = seen;
+        Ok((early_ok, st, rec))
     });
     match r {
         Ok(x) => x,
@@ -414,7 +438,10 @@ pub fn run(c: &Cfg, seed: u64, cut_stride: usize) -> Result<u64, (String, String
                 let k = if e.starts_with("panic@") { e.clone() } else { format!("decode-error:{cls}:{}", e.split(':').next().unwrap_or("")) };
                 return Err((k, format!("{e} (cuts {:?})", &cuts[..cuts.len().min(4)]), file));
             }
-            Ok((_seen, st, rec)) => {
+            Ok((early_ok, st, rec)) => {
+                if let Some((at, bytes)) = early_ok.iter().find(|(_, b)| *b != jpeg) {
+                    return Err((format!("early-reconstruction-wrong:{cls}"), format!("after {at} of {} bytes reconstruct_jpeg returned Ok with {} bytes that are not the original {} bytes (cuts {:?})", file.len(), bytes.len(), jpeg.len(), &cuts[..cuts.len().min(4)]), file));
+                }
                 if st != "available" {
                     return Err((format!("status-not-available:{cls}"), format!("complete file but status is {st} (cuts {:?})", &cuts[..cuts.len().min(4)]), file));
                 }
